@@ -40,7 +40,7 @@ def translate(ctx):
 
 
 LEVEL_TEXT = (
-    "31 theorems, all closed under the global context, no known-gap hypothesis. (1) Over all object stores -- arbitrary graphs of modules, "
+    "32 theorems, all closed under the global context, no known-gap hypothesis. (1) Over all object stores -- arbitrary graphs of modules, "
     "classes, functions, attributes and aliases with resolved / unresolvable / cyclic targets, inherited members, __all__, imports and "
     "explicit public flags -- about a model of find_breaking_changes that mirrors the seen_paths guard on (old, new) pairs: a package "
     "compared with itself reports nothing; any compatibility extension (members added anywhere, parameters added that leave C10's fdiff_m "
@@ -50,7 +50,8 @@ LEVEL_TEXT = (
     "kind change, removed base, changed attribute value, C10 parameter breakages incl. the regenerated collision rule) is reported; "
     "unresolvable and cyclic targets are skipped and the comparison completes with fuel = |old| * |new| + 1; exit code 0 iff nothing is "
     "reported; is_public equals the ladder its docstring words. (2) Elaboration layer: Alias.target (resolve_target with the "
-    "_passed_through flags, path walk through the modules collection, all-or-nothing chains), Class.resolved_bases, Class.mro() and "
+    "_passed_through flags, path walk through the modules collection, all-or-nothing chains), Class.resolved_bases (incl. bases named "
+    "through a plain assignment), Class.mro() and "
     "Object.inherited_members (C07's Coq model, reused) are computed INSIDE Coq from the declared structure; theorems: the member an "
     "elaborated class shows under a name is CPython's lookup along the MRO (the nearest definition, behind at most one fresh alias), no "
     "member when nothing provides it; at any depth the comparison reaches the providing definitions through inheritance and through "
@@ -354,6 +355,13 @@ def gen_hierarchy(rng, mods):
         for n in direct:
             m.defs.append({"kind": "import", "frm": mp2, "name": n})
             used.add(n)
+    if rng.random() < 0.3:      # a base named through a plain assignment: `Impl = _Mid` ... `class Leaf(Impl)`
+        k = rng.randrange(len(direct))
+        an = fresh(rng, used, [["Impl", "B2", "BaseAlias", "_Impl2"]])
+        used.add(an)
+        m.defs.append({"kind": "attr", "name": an, "value": direct[k]})
+        direct = direct[:k] + [an] + direct[k + 1:]
+        shape += "+assigned-base"
     leaf = mk(pm(0.15), direct, used)
     m.defs.append(leaf)
     return shape
@@ -375,7 +383,7 @@ def gen_pkg(rng, stream, facade=False):
     mods = list(iter_mods(root))
     if stream == "hierarchy" or rng.random() < 0.2:
         for _ in range(rng.randint(1, 2)):
-            gen_hierarchy(rng, mods)
+            gen_hierarchy(rng, mods)      # (shape names are observed through the class-view tallies)
     # imports / re-exports
     for m, mp in mods:
         for _ in range(rng.choice([0, 0, 1, 1, 2, 3])):
@@ -963,7 +971,9 @@ class RawAbstraction:
                 sg = [[self.pn(p.name), PARAM_KIND[p.kind.value], [] if p.default is None else [self.I.atom(p.default)]] for p in obj.parameters]
                 body = ["function", sg, [] if obj.returns is None else [self.I.atom(obj.returns)]]
             else:
-                body = ["attribute", [] if obj.value is None else [self.I.atom(obj.value)]]
+                from _griffe.expressions import ExprAttribute, ExprName
+                vp = [obj.value.canonical_path.split(".")] if isinstance(obj.value, (ExprName, ExprAttribute)) else []
+                body = ["attribute", [] if obj.value is None else [self.I.atom(obj.value)], vp]
         self.nodes[i] = [obj.name, pub, body]
         return i
 
@@ -1122,11 +1132,19 @@ class SpecWorld:
         bases, why = [], None
         for b in d["bases"]:
             r = self.resolve(mp, b) if toplevel else None
+            fwd = r is not None and self.order.get((mp, b), 10**6) > self.order.get((mp, d["name"]), -1)
+            hops = 0
+            while not fwd and r is not None and r[0] == "def" and r[1]["kind"] == "attr" and isinstance(r[1]["value"], str) and hops < 16:
+                # `Base = Class`: the interpreter evaluates the name when the assignment runs, in the module of the assignment
+                amp, aname, target = r[3], r[1]["name"], r[1]["value"]
+                r = self.resolve(amp, target)
+                fwd = r is not None and self.order.get((amp, target), 10**6) > self.order.get((amp, aname), -1)
+                hops += 1
+            if fwd:
+                why = "forward-reference"
+                break
             if r is None or r[0] != "def" or r[1]["kind"] != "class":
                 why = "base-not-a-class"
-                break
-            if self.order.get((mp, b), 10**6) > self.order.get((mp, d["name"]), -1):
-                why = "forward-reference"
                 break
             t = self.build(r[2], stack + (path,))
             if isinstance(t, str):
